@@ -1338,3 +1338,122 @@ def c11_rank_job(job) -> List[Dict[str, Any]]:
             else:
                 out.append(_inst("R11.9", "HOLDS", roles, "predict_rank", desc))
     return out
+
+
+def run_rate_seeded(prog, roles, sizes, levels, rels, *, limit_sigma=True) -> GameRun:
+    """rate on an explicit game (ranks given, tau per call) with extra assumed relations between terms."""
+    w = World(prog, roles, Box())
+    I = w.I
+    I.number_locals = True
+    I.explicit = True
+    common = prog.modules.get(f"{prog.package}.models.weng_lin.common")
+    if common is not None:
+        I.opaque_funcs = {common.funcs[n].fq for n in CORRECTIONS if n in common.funcs}
+    m = w.make_model(custom_gamma=False)
+    game_, players = build_game(w, sizes)
+    prior = {who: (I.read_field(w.state, p, "mu"), I.read_field(w.state, p, "sigma")) for who, p in players.items()}
+    kwargs: Dict[str, Any] = {"ranks": build_values(w, levels, list(range(len(sizes)))), "tau": Num(kinds=frozenset({"float"}), sym=("param", "g.tau")),
+                              "limit_sigma": Bool(bool(limit_sigma), frozenset(), None)}
+    for a_, b_, r_ in rels:
+        w.state.rel_set(a_, b_, frozenset({r_}))
+    I.events.clear()
+    I.raises.clear()
+    I.open_cmps.clear()
+    with sym_cap(TERM_CAP):
+        res = w.call(m, "rate", [game_], kwargs)
+    return GameRun(roles.short, tuple(sizes), tuple(range(len(sizes))), w, players, res, list(I.undecided), list(I.raises), bool(w.state.bottom), prior)
+
+
+def cap_job(job) -> List[Dict[str, Any]]:
+    """The limit_sigma cap on explicit games, by finite case analysis: the comparisons between a player's posterior sigma and
+    a prior that the run leaves open are assumed in turn (3-point order domain). In every case the sigma finally stored for
+    a player must be a term that the case's assumptions order at or below that same player's prior sigma: its own prior atom, or a
+    term assumed <= / == it. (rule id passed in: R6.6 for C06, R2.10 for C02)"""
+    idx, tier, rule = job
+    prog = Program()
+    roles = prog.roles()[idx]
+    out = []
+    for sizes in [(1, 1), (2, 1)] + ([(1, 1, 1)] if tier == "thorough" else []):
+        lvs = weak_orderings(len(sizes)) if len(sizes) == 2 else [(0, 1, 2), (1, 0, 1)]
+        for lv in lvs:
+            desc = f"with limit_sigma the sigma stored for a player is at most that player's own prior: team sizes {sizes}, {describe(lv)}"
+            verdict, msg, n_leaves = "HOLDS", "", 0
+
+            def leaves(rels, depth):
+                run = run_rate_seeded(prog, roles, sizes, lv, rels)
+                opens = [p for p in open_compares(run) if not any({p[0], p[1]} == {r[0], r[1]} for r in rels)]
+                if not opens or depth == 0:
+                    return [(rels, run, bool(opens))]
+                a, b = opens[0]
+                res = []
+                for rel in ("LT", "EQ", "GT"):
+                    res.extend(leaves(tuple(rels) + ((a, b, rel),), depth - 1))
+                return res
+
+            try:
+                lf = leaves((), sum(sizes) + 1)
+            except Exception as e:  # noqa: BLE001
+                out.append(_inst(rule, "UNDECIDED", roles, "rate", desc, f"abstract evaluation failed: {type(e).__name__}: {e}"))
+                continue
+            for rels, run, still_open in lf:
+                n_leaves += 1
+                bad = run.ok()
+                if bad or still_open:
+                    if verdict == "HOLDS":
+                        verdict, msg = "UNDECIDED", bad or "comparisons remain open after the case analysis"
+                    continue
+                st = run.world.state
+                for who in run.players:
+                    v = run.field(who, "sigma")
+                    pri = sg_atom(*who)
+                    if not isinstance(v, Num) or v.sym is None:
+                        if verdict == "HOLDS":
+                            verdict, msg = "UNDECIDED", f"the sigma stored for player {who} has no term in one case"
+                        continue
+                    if v.sym == pri:
+                        continue
+                    r = st.rel_lookup(v.sym, pri)
+                    if r is not None and r <= {"LT", "EQ"}:
+                        continue
+                    if v.sym[0] == "min":
+                        # min(.., own prior, ..) is at most the own prior whatever the other arguments are
+                        args = [a for a in v.sym[1:] if isinstance(a, tuple)]
+                        if pri in args or any((st.rel_lookup(a, pri) or {"GT"}) <= {"LT", "EQ"} for a in args):
+                            continue
+                    case = ", ".join(f"{show(to_poly(a), 50)} {dict(LT='<', EQ='==', GT='>')[rr]} {show(to_poly(b), 50)}" for a, b, rr in rels)
+                    if r is not None and "GT" in r and len(r) == 1:
+                        verdict, msg = "VIOLATED", f"in the case [{case}] the sigma stored for player {who[1]} of team {who[0]} is assumed larger than that player's own prior, and is kept"
+                        break
+                    # stored something whose relation to the own prior is not fixed by the case: it was capped against another value
+                    verdict, msg = "VIOLATED", (f"in the case [{case}] the sigma stored for player {who[1]} of team {who[0]} is {show(to_poly(v.sym), 80)}: neither that player's own prior nor a value the case "
+                                                "orders at or below it (the cap compares against, or stores, something other than the same player's prior)")
+                    break
+                if verdict == "VIOLATED":
+                    break
+            out.append(_inst(rule, verdict, roles, "rate", desc, msg, {"cases": n_leaves}))
+    return out
+
+
+def returns_job(job) -> List[Dict[str, Any]]:
+    """Every operation returns normally on every explicit small game (no exception of any class), rule id passed in."""
+    idx, tier, rule = job
+    prog = Program()
+    roles = prog.roles()[idx]
+    out = []
+    for sizes in _sizes(tier):
+        cases = [("rate", lv, mode) for lv in weak_orderings(len(sizes)) for mode in ("ranks", "scores")] + [("rate", None, "none")]
+        cases += [(op, None, "") for op in ("predict_win", "predict_draw", "predict_rank")]
+        for op, lv, mode in cases:
+            desc = f"{op} returns normally: team sizes {sizes}" + (f", {mode} {describe(lv) if lv else ''}" if op == "rate" else "")
+            try:
+                run = run_rate(prog, roles, sizes, lv, mode=mode, limit_sigma=True) if op == "rate" else run_predict(prog, roles, op, sizes)
+            except Exception as e:  # noqa: BLE001
+                out.append(_inst(rule, "UNDECIDED", roles, op, desc, f"abstract evaluation failed: {type(e).__name__}: {e}"))
+                continue
+            if run.raises and not run.undecided:
+                out.append(_inst(rule, "VIOLATED", roles, op, desc, f"a valid game raises {sorted({e.data['exc'] for e in run.raises})}"))
+            elif run.undecided or run.bottom:
+                out.append(_inst(rule, "UNDECIDED", roles, op, desc, "; ".join(run.undecided[:2]) or "no path returns"))
+            else:
+                out.append(_inst(rule, "HOLDS", roles, op, desc))
+    return out
